@@ -61,9 +61,29 @@ Definition case_verify (input obs : json) : verdict :=
             else VOk false in
   worst vh (worst vv (worst vp vr)).
 
+(* ---- C10 / kind "misc": entry points without a model; nothing may panic ---- *)
+Definition case_misc (input obs : json) : verdict :=
+  match obs with
+  | JObj kvs => match filter (fun kv : string * json => match snd kv with JStr s => String.eqb s "panic" | _ => false end) kvs with
+                | [] => VOk true
+                | (k, _) :: _ => VPropFail ("entry point panics on untrusted input: " ++ k) end
+  | _ => VBad "misc" end.
+
+(* ---- C10 / kind "deep": compounded nesting, implementation run in a child process ---- *)
+Definition case_deep (input obs : json) : verdict :=
+  let O := oracles_of input in
+  let token := jstr_or_empty (jget "token" input) in
+  let m := match holder_verify O token with Val _ => "ok" | Fail => "err" | Panic => "panic" end in
+  let o := obs_class (jget "hverify" obs) in
+  if String.eqb o "abort" then VPropFail ("Holder::verify aborts the process (stack exhaustion) on deeply nested disclosures [model: " ++ m ++ "]")
+  else if String.eqb o "panic" then VPropFail "Holder::verify panics on deeply nested disclosures"
+  else if String.eqb o m then VOk true else VMismatch ("Holder::verify on nested disclosures: impl " ++ o ++ ", model " ++ m).
+
 Definition run_case (kind : string) (input obs : json) : verdict :=
   if String.eqb kind "split" then case_split input obs
   else if String.eqb kind "verify" then case_verify input obs
+  else if String.eqb kind "misc" then case_misc input obs
+  else if String.eqb kind "deep" then case_deep input obs
   else if String.eqb kind "issue" then case_issue input obs
   else if String.eqb kind "present" then case_present input obs
   else if String.eqb kind "bstep" then case_bstep input obs
